@@ -381,7 +381,20 @@ static std::unique_ptr<FileSniffer> open_sniffer(const std::string& path, int ct
     if (filter && ctor != C_SET_AFTER) cfg.set_filter(filter);
     if (method != M_LOOP) cfg.set_pcap_sniffing_method(method_fn(method));
     switch (ctor) {
-        case C_PATH_CFG: case C_SET_AFTER: s.reset(new FileSniffer(path, cfg)); break;
+        case C_PATH_CFG: case C_SET_AFTER: {
+            // value semantics of the configuration: a copy of a copy, assigned over a configuration that held other settings,
+            // every source destroyed before the result is used
+            std::unique_ptr<SnifferConfiguration> c0(new SnifferConfiguration(cfg));
+            std::unique_ptr<SnifferConfiguration> c1(new SnifferConfiguration(*c0));
+            c0.reset();
+            SnifferConfiguration c2;
+            c2.set_filter("len > 70000");
+            c2.set_pcap_sniffing_method(pcap_dispatch);
+            c2 = *c1;
+            c1.reset();
+            s.reset(new FileSniffer(path, c2));
+            break;
+        }
         case C_FILE_CFG: { FILE* fp = fopen(path.c_str(), "rb"); s.reset(new FileSniffer(fp, cfg)); break; }
         case C_PATH_STR: s.reset(new FileSniffer(path, std::string(filter ? filter : ""))); break;
         case C_FILE_STR: { FILE* fp = fopen(path.c_str(), "rb"); s.reset(new FileSniffer(fp, std::string(filter ? filter : ""))); break; }
@@ -479,7 +492,8 @@ static std::string run_reader(FileSniffer& s, int reader, int k, std::vector<Out
 // ------------------------------------------------------------------------------------------------ one case = one sequence
 struct Ctx {
     const Link* link; std::vector<Frame> alpha, gen2; Oracle orc;
-    std::vector<std::shared_ptr<OfflinePacketFilter> > flt[NFILTERS];
+    std::vector<std::shared_ptr<OfflinePacketFilter> > flt[NFILTERS];     // value-semantics generations of the filter for expression i
+    std::vector<std::string> flt_label[NFILTERS];
 };
 struct Exp { Ts ts; const Frame* f; };
 
@@ -705,14 +719,14 @@ static void run_case(Ctx& cx, const std::vector<int>& seq, int rot, bool full) {
                     if (mon_error()) viol(Mon::first, Mon::first_detail, std::string("matches_filter filter=") + FILTERS[fi]);
                     if (got != mo)
                         viol("offline-filter:verdict-differs-from-libpcap", "frame " + f.name + ": matches_filter=" + str(got) + ", pcap_offline_filter=" + str(mo) +
-                             (o == 1 ? " (copy-constructed filter)" : o == 2 ? " (assigned filter)" : ""), std::string("filter=") + FILTERS[fi]);
+                             " (" + cx.flt_label[fi][o] + ")", std::string("filter=") + FILTERS[fi]);
                     if (o == 0 && f.p.ok && f.p.serializable) {
                         bool want = cx.orc.match(fi, f.p.ser, (uint32_t)f.p.ser.size());
                         bool g2;
                         try { g2 = cx.flt[fi][0]->matches_filter(*f.p.obj); }
                         catch (std::exception& e) { viol("offline-filter:exception:" + exc_name(e), e.what(), std::string("filter=") + FILTERS[fi]); continue; }
                         R.count("offline_filter_verdicts");
-                        if (g2 != want) viol("offline-filter:pdu-verdict-differs-from-libpcap", "frame " + f.name, std::string("filter=") + FILTERS[fi]);
+                        if (g2 != want) viol("offline-filter:pdu-verdict-differs-from-libpcap", "frame " + f.name + " (" + cx.flt_label[fi][0] + ")", std::string("filter=") + FILTERS[fi]);
                     }
                 }
             }
@@ -833,6 +847,43 @@ static std::shared_ptr<OfflinePacketFilter> make_offline(int dlt, const char* ex
     return std::shared_ptr<OfflinePacketFilter>();
 }
 
+// Value-semantics generations of OfflinePacketFilter for expression fi.  Every source object is destroyed before the derived
+// object is used (a shared pcap handle / program would show under ASan); every generation must keep giving libpcap's verdict for
+// ITS expression.  `alt` is another accepted expression, used for objects that are assigned over and as the vector's middle element.
+// (Self-assignment is not exercised: operator= has no self check and nothing in the documentation promises it; see notes.)
+static void build_generations(Ctx& cx, int fi, bool originals) {
+    typedef OfflinePacketFilter F;
+    typedef std::shared_ptr<F> P;
+    const int dlt = cx.link->dlt;
+    int alt = fi;
+    for (int d = 1; d < NFILTERS; ++d) { int c = (fi + d) % NFILTERS; if (cx.orc.valid[c] && cx.orc.valid_file[c]) { alt = c; break; } }
+    const char* e = FILTERS[fi]; const char* other = FILTERS[alt];
+    auto add = [&](int idx, const char* label, P p) { cx.flt[idx].push_back(p); cx.flt_label[idx].push_back(label); };
+    if (originals) { add(fi, "g0 original", make_offline(dlt, e)); return; }      // index 0 of every family is the original
+    { P t = make_offline(dlt, e); P g1(new F(*t)); t.reset(); add(fi, "g1 copy, source destroyed", g1); }
+    { P t = make_offline(dlt, e); P c1(new F(*t)); t.reset(); P g2(new F(*c1)); c1.reset(); add(fi, "g2 copy of a copy, sources destroyed", g2); }
+    { P t = make_offline(dlt, e); P c1(new F(*t)); t.reset(); P c2(new F(*c1)); c1.reset();
+      P g3 = make_offline(dlt, other); *g3 = *c2; c2.reset(); add(fi, "g3 assigned from a copy of a copy (held another expression), sources destroyed", g3); }
+    { P t = make_offline(dlt, e); P g4 = make_offline(dlt, other); *g4 = *t; t.reset(); add(fi, "g4 original assigned over an object that held another expression, source destroyed", g4); }
+    { P t = make_offline(dlt, e); P a1 = make_offline(dlt, other); *a1 = *t; t.reset(); P a2 = make_offline(dlt, other); *a2 = *a1; a1.reset();
+      P g5(new F(*a2)); a2.reset(); add(fi, "g5 copy of an object assigned from an assigned object, sources destroyed", g5); }
+    {   // std::vector with 3 push_backs (reallocation copies the elements again); the temporaries are gone when the elements are used
+        std::shared_ptr<std::vector<F> > v(new std::vector<F>());
+        { P t = make_offline(dlt, e); v->push_back(*t); }
+        { P t = make_offline(dlt, other); v->push_back(*t); }
+        { P t = make_offline(dlt, e); v->push_back(*t); }
+        add(fi, "vector element 0 after 3 push_backs", P(v, &(*v)[0]));
+        add(alt, "vector element 1 after 3 push_backs", P(v, &(*v)[1]));
+        add(fi, "vector element 2 after 3 push_backs", P(v, &(*v)[2]));
+        std::shared_ptr<std::vector<F> > w(new std::vector<F>(*v));        // copy of the whole vector, then element-wise assignment back
+        add(fi, "element 0 of a copied vector", P(w, &(*w)[0]));
+        std::shared_ptr<std::vector<F> > x(new std::vector<F>());
+        { P t = make_offline(dlt, other); x->push_back(*t); x->push_back(*t); x->push_back(*t); }
+        *x = *w;                                                               // vector assignment: element-wise operator=
+        add(fi, "element 2 of a vector assigned from a copied vector", P(x, &(*x)[2]));
+    }
+}
+
 // alphabet sanity (a failure here is a harness/alphabet problem or a changed serializer, reported loudly) + filter objects
 static void setup_checks(Ctx& cx, bool report) {
     g_case = std::string("lt=") + cx.link->name + " setup=1";
@@ -850,16 +901,13 @@ static void setup_checks(Ctx& cx, bool report) {
         if (f.p.ok && f.p.serializable && !(g.p.ok && g.p.sig == f.p.sig) && f.want_fixpoint)
             viol("harness:second-generation-differs", "frame " + f.name, "alphabet");
     }
+    for (int pass = 0; pass < 2; ++pass)
     for (int fi = 0; fi < NFILTERS; ++fi) {
         std::string where = std::string("filter=") + FILTERS[fi];
         if (cx.orc.valid[fi]) {
             Mon::reset();
-            try {
-                std::shared_ptr<OfflinePacketFilter> a = make_offline(cx.link->dlt, FILTERS[fi]);
-                std::shared_ptr<OfflinePacketFilter> b(new OfflinePacketFilter(*a));                       // copy
-                std::shared_ptr<OfflinePacketFilter> c = make_offline(cx.link->dlt, "len > 0"); *c = *a;    // assignment
-                cx.flt[fi].push_back(a); cx.flt[fi].push_back(b); cx.flt[fi].push_back(c);
-            } catch (std::exception& e) { viol("offline-filter:valid-expression-rejected:" + exc_name(e), e.what(), where); }
+            try { build_generations(cx, fi, pass == 0); R.maxv("offline_filter_generations_per_expression", (uint64_t)cx.flt[fi].size()); }
+            catch (std::exception& e) { viol("offline-filter:valid-expression-rejected:" + exc_name(e), e.what(), where); }
             if (mon_error()) viol(Mon::first, Mon::first_detail + " constructing OfflinePacketFilter", where);
         }
     }
